@@ -15,6 +15,7 @@ RAW_KINDS = ["truncate", "bitflip", "overwrite"]
 MEMBER_KINDS = [
     "m_empty", "m_short", "m_cut_at_chunk", "m_cut_off_chunk", "m_marker", "m_len_plus", "m_len_minus", "m_bad_snappy",
     "m_bad_varint", "m_bad_header", "m_msg_len_past_end", "m_truncate_raw", "m_garbage_tail",
+    "m_unknown_type", "m_no_message_infos", "m_zero_length",
 ]
 CONTAINER_KINDS = ["c_iwph", "c_plist_malformed", "c_plist_missing", "c_build_missing", "c_dir_for_file", "c_empty_dir", "c_not_zip", "c_nested_index_damaged", "c_drop_member", "c_suffix"]
 ALL_KINDS = RAW_KINDS + MEMBER_KINDS + CONTAINER_KINDS
@@ -212,6 +213,34 @@ def _apply_member(path: str, f: dict) -> str:
                 out.append(iwa.build_stream([s]))
             out.append(iwa.write_varint(len(hdr)) + hdr + b"".join(segs[-1].payloads))
             raw2 = b"".join(out)
+        elif kind in ("m_unknown_type", "m_no_message_infos", "m_zero_length"):
+            # the container, framing and ArchiveInfo all still decode; one segment's header is inconsistent
+            segs = iwa.parse_stream(raw)
+            seg = segs[int(f["a"] * len(segs)) % len(segs)]
+            if kind == "m_unknown_type":
+                seg.info.message_infos[0].type = [59999, 0, 7, 2147483647][f["n"] % 4]
+                raw2 = iwa.build_stream(segs)
+            elif kind == "m_no_message_infos":
+                body = b"".join(seg.payloads)
+                del seg.info.message_infos[:]
+                out = []
+                for s2 in segs:
+                    if s2 is seg:
+                        hdr = s2.info.SerializeToString()
+                        out.append(iwa.write_varint(len(hdr)) + hdr + (body if f["b"] < 0.5 else b""))
+                    else:
+                        out.append(iwa.build_stream([s2]))
+                raw2 = b"".join(out)
+            else:
+                out = []
+                for s2 in segs:
+                    if s2 is seg:
+                        s2.info.message_infos[0].length = 0
+                        hdr = s2.info.SerializeToString()
+                        out.append(iwa.write_varint(len(hdr)) + hdr + b"".join(s2.payloads))
+                    else:
+                        out.append(iwa.build_stream([s2]))
+                raw2 = b"".join(out)
         elif kind == "m_truncate_raw":
             raw2 = raw[: int(f["a"] * len(raw))]
         else:  # m_garbage_tail
